@@ -127,8 +127,10 @@ def shard(mon, tier, rng, shard_no, nshards):
         variant = ALL[(it + shard_no) % len(ALL)]
         case, order = make(rng, variant)
         if tier == "thorough" and it % 20 == 7 and runs.VARIANTS[variant]["algo"] in ("VOGP", "EpsilonPAL", "PaVeBaGP", "PaVeBaPartialGP"):
-            case["model"] = "real"  # the real GP wrapper, trained by the real factory helper on the K designs
-            case["noise_var"] = 1e-4 * case["scale"] ** 2
+            # the real GP wrapper, fitted by the real factory helper on the K designs: standardised values, enough designs and a
+            # noise level for which the fit is well conditioned (a degenerate fit is detected and skipped by run_case)
+            case, order = runs.make_case(rng, variant, K=int(rng.integers(8, 13)), scale=1.0, ds_family="random", noise_var=0.01, eps=0.3,
+                                         contraction=16.0, model="real", allow_Kgtm=False, batch=int(rng.choice([1, 2])))
             case["max_rounds"] = 40
             mon.count("real_model_runs")
         tr = runs.run_case(case, order, mon)
